@@ -32,10 +32,13 @@ def run(R):
     with open(cf, "a") as f:
         for c in hv:
             f.write(json.dumps(dict(kind="hv", ty=c["ty"], v=c["v"], src=c["src"])) + "\n")
+            # the same row read as a response row: a header / cookie annotated field of that type holding that value
+            if c["src"] in ("header", "cookie") and not c["ty"].startswith("list_"):
+                f.write(json.dumps(dict(kind="hrv", ty=c["ty"], v=c["v"], src=c["src"])) + "\n")
     R.extra_cov["tlc_conversion_rows_replayed"] = len(hv)
     tr = os.path.join(R.scratch, "c17.ndjson")
     R.drive("c17", "out=" + tr, "cases=" + cf, "responses=1", timeout=3000)
-    R.validate("Trace_HttpMap", tr, reset_events=("HM", "HR", "HMMany", "HV"), timeout=3000)
+    R.validate("Trace_HttpMap", tr, reset_events=("HM", "HR", "HMMany", "HV", "HRV"), timeout=3000)
     R.extra_cov["tlc_rows_replayed"] = len(cases)
     return vlib.finish(R, "model_checking", RULE, ASSUME)
 
@@ -47,5 +50,5 @@ def replay(R, path):
         f.write(json.dumps(rec["case"]) + "\n")
     tr = os.path.join(R.scratch, "replay-out.ndjson")
     R.drive("c17", "out=" + tr, "cases=" + cf)
-    R.validate("Trace_HttpMap", tr, reset_events=("HM", "HR", "HMMany", "HV"), batches=1)
+    R.validate("Trace_HttpMap", tr, reset_events=("HM", "HR", "HMMany", "HV", "HRV"), batches=1)
     return vlib.finish(R, "model_checking", RULE, ASSUME)
